@@ -184,6 +184,7 @@ class Probe(BaseComponent):
         self.log = log
         self.sid = sid
         self.seen = []
+        self.accepted = {}
 
     @handler('_read', '_write', '_disconnect', priority=50)
     def _low(self, event, sock, *a):
@@ -192,6 +193,8 @@ class Probe(BaseComponent):
     @handler('write', priority=50)
     def _w(self, event, sock, data=b'', *a):
         self.log.append(('h', 'write', self.sid(sock), len(data)))
+        if isinstance(sock, socket.socket) and sock.fileno() >= 0:      # handed to a connected socket: accepted for writing
+            self.accepted[self.sid(sock)] = self.accepted.get(self.sid(sock), 0) + len(data)
 
     @handler('close', priority=50)
     def _c(self, event, sock=None, *a):
@@ -285,6 +288,7 @@ class ServerRun:
         self.peers = {}          # conn -> peer socket (None once closed)
         self.order = []          # conn ids in the order their connect() was issued
         self.sent = {}           # conn -> number of bytes the peer has sent
+        self.pgot = {}           # conn -> number of bytes the peer has received
         # reference: every connection has a shadow on raw sockets that gets the same peer actions (and the server's
         # writes) but is read only at the very end -> what the kernel still delivers to a reader after all that
         self.ls2 = socket.socket(ls.family, socket.SOCK_STREAM)
@@ -413,12 +417,12 @@ class ServerRun:
                 except OSError:
                     pass
             elif k == 'pdrain':
-                for q in (p, sp):
-                    try:
-                        while q.recv(65536):
-                            pass
-                    except OSError:
+                self.drain(c)
+                try:
+                    while sp.recv(65536):
                         pass
+                except OSError:
+                    pass
             else:
                 if k == 'preset':
                     # abort: RST for TCP (SO_LINGER 0); for AF_UNIX closing with unread data resets the other side
@@ -449,7 +453,27 @@ class ServerRun:
             return True
         raise ValueError(k)
 
+    def drain(self, c):
+        """peer c reads what is there -> number of bytes"""
+        n, p = 0, self.peers.get(c)
+        if p is not None:
+            try:
+                while True:
+                    d = p.recv(65536)
+                    if not d:
+                        break
+                    n += len(d)
+            except OSError:
+                pass
+        self.pgot[c] = self.pgot.get(c, 0) + n
+        return n
+
     def finish(self):
+        # peers that are still there keep reading until the server has nothing more for them
+        for _ in range(40):
+            if not sum(self.drain(c) for c in list(self.peers)):
+                break
+            self.settle()
         for c, p in list(self.peers.items()):
             if p is not None:
                 p.close()
@@ -505,7 +529,9 @@ def run_server_case(case):
         r.finish()
         return {'log': canon_log(r.log), 'seen': r.probe.seen, 'applied': applied,
                 'order': r.order, 'sent': [r.sent.get(c, 0) for c in r.order],
-                'naccepted': len(r.ls.made), 'ls_closed': r.ls.fileno() < 0, 'reference': r.reference()}
+                'naccepted': len(r.ls.made), 'ls_closed': r.ls.fileno() < 0, 'reference': r.reference(),
+                'peer_got': [r.pgot.get(c, 0) for c in r.order],
+                'accepted': [r.probe.accepted.get(k, 0) for k in range(len(r.order))]}
     finally:
         r.dispose()
 
@@ -594,6 +620,10 @@ class CProbe(BaseComponent):
     def _after(self, event, *a):
         self.log.append(('after', bool(self.client.connected)))
 
+    @handler('unreachable', 'error')
+    def _failed(self, *a):
+        self.failed = getattr(self, 'failed', 0) + 1
+
     @handler('connected')
     def _connected(self, *a):
         self.seen.append([0])
@@ -652,7 +682,15 @@ def run_client_case(case):
     poller = getattr(P, kind)().register(m)
     poller_fds = fdset() - before
     try:
-        cl = (S.UNIXClient if family == 'unix' else S.TCPClient)(bufsize=BUFSIZE).register(m)
+        kw = {'connect_timeout': 0.05} if (family == 'tcp' and any(op[0] == 'connect_dead' for op in case['ops'])) else {}
+        cl = (S.UNIXClient if family == 'unix' else S.TCPClient)(bufsize=BUFSIZE, **kw).register(m)
+        if family == 'tcp':         # a port nobody listens on / a path that does not exist
+            t = socket.socket()
+            t.bind(('127.0.0.1', 0))
+            dead = t.getsockname()
+            t.close()
+        else:
+            dead = os.path.join(tmp, 'nobody')
         probe = CProbe(log=log, client=cl).register(m)
         m._running = True
         peers = []
@@ -700,6 +738,15 @@ def run_client_case(case):
                     m.fire(connect_ev(addr), 'client')
                 else:
                     m.fire(connect_ev(addr[0], addr[1]), 'client')
+            elif k == 'connect_dead':   # refused: first attempt after the (short) connect timeout, a retry at once
+                if cl.connected:
+                    bad_connect = True
+                nfail = getattr(probe, 'failed', 0)
+                m.fire(connect_ev(*dead) if family == 'tcp' else connect_ev(dead), 'client')
+                end = time.time() + 2.0
+                while getattr(probe, 'failed', 0) == nfail and time.time() < end:
+                    m.tick(0)
+                    time.sleep(0.002)
             elif k == 'write':          # also after the disconnect (late write)
                 m.fire(write_ev(b'w' * op[1]), 'client')
             elif k == 'close':
@@ -732,7 +779,7 @@ def run_client_case(case):
             applied.append(1 if ok else 0)
             if ok:
                 settle()
-                if k == 'connect':
+                if k in ('connect', 'connect_dead'):
                     log.append(('connect_result', sock_open()))
                 csnap()
         log.append(('op', len(case['ops']), len(probe.seen)))
@@ -1024,6 +1071,18 @@ def directed_unread(kinds=KINDS):
     return out
 
 
+def directed_client(kinds=KINDS):
+    """connections that never come about: refused connects, retries, close() on an idle client — then a real one"""
+    pats = [[['close']], [['close'], ['close']], [['close'], ['connect'], ['psend', 5], ['pclose']],
+            [['connect_dead']], [['connect_dead'], ['connect_dead']],
+            [['connect_dead'], ['connect_dead'], ['close'], ['connect'], ['write', 4], ['pdrain'], ['pclose']],
+            [['connect_dead'], ['close'], ['close'], ['connect_dead']],
+            [['write', 3], ['close'], ['connect_dead'], ['connect'], ['pclose'], ['close']],
+            [['connect'], ['pclose'], ['connect_dead'], ['connect_dead'], ['close']]]
+    return [{'k': 'client', 'poller': kind, 'family': fam, 'ops': [list(o) for o in ops]}
+            for kind in kinds for fam in ('tcp', 'unix') for ops in pats]
+
+
 def emit_cases():
     return [{'k': 'emit', 'poller': kind, 'bits': [i, o, e, h]}
             for kind in ('Poll', 'EPoll') for i in (0, 1) for o in (0, 1) for e in (0, 1) for h in (0, 1)]
@@ -1062,7 +1121,10 @@ class C12(Prop):
             # a deterministic third of the directed scenarios, rotating with the seed-derived offset
             off = rng.randrange(4)
             d = [c for i, c in enumerate(d) if i % 4 == off]
-        cases += d + directed_unread() + emit_cases()
+        dc = directed_client()
+        if tier == 'quick':
+            dc = [c for i, c in enumerate(dc) if i % 2 == off % 2 or c['family'] == 'tcp' and len(c['ops']) <= 2]
+        cases += d + directed_unread() + emit_cases() + dc
         nrand = max(0, n - len(cases))
         for i in range(nrand):
             if rng.random() < 0.35:
@@ -1113,7 +1175,9 @@ class C12(Prop):
     def gen_client(self, rng):
         kind = rng.choice(KINDS)
         fam = 'tcp' if rng.random() < 0.5 else 'unix'
-        ops = [['connect']]
+        ops = [rng.choice([[['connect']], [['connect']], [['close'], ['connect']], [['connect_dead'], ['connect']],
+                           [['connect_dead'], ['connect_dead'], ['connect']]])][0]
+        ops = [list(o) for o in ops]
         for _ in range(rng.randint(2, 10)):
             r = rng.random()
             if r < 0.12:
@@ -1326,6 +1390,14 @@ class C12(Prop):
             if not server_ended and wrote <= 1024 and len(got) < ref:
                 return ('socket %d: the peer sent %d bytes and went away; a raw reader on an identical connection still gets %d of '
                         'them, the read events carry only %d' % (s, len(want), ref, len(got)))
+            # output accepted before the peer's half-close reaches a peer that keeps reading (the close is deferred until
+            # the buffer is flushed); demanded only where nothing else can destroy it: the peer never closed or reset
+            # before the end, the server was not asked to close, no error, all input was read
+            mine = [op[0] for op, ok in zip(c['ops'], obs['applied']) if ok and len(op) > 1 and op[1] == conn]
+            if ('shutwr' in mine and not ncloseall and not {'pclose', 'preset', 'close'} & set(mine) and 'e' not in word
+                    and got == want and obs['peer_got'][s] < obs['accepted'][s]):
+                return ('socket %d: the server accepted %d bytes for writing, the peer half-closed and kept reading but received '
+                        'only %d before the disconnect' % (s, obs['accepted'][s], obs['peer_got'][s]))
             touched = ncloseall or any(op[0] in ('write', 'close', 'preset') and len(op) > 1 and op[1] == conn for op in c['ops'])
             if not touched and 'e' not in word and got != want:
                 return 'socket %d: peer sent %d bytes and closed in an orderly way, read events carry only %d' % (s, len(want), len(got))
@@ -1400,7 +1472,7 @@ class C12(Prop):
         return any(e[0] == 'error' for e in obs['seen'])
 
     def search(self, rng, tier):
-        for c in directed() + directed_unread() + emit_cases():
+        for c in directed() + directed_unread() + emit_cases() + directed_client():
             yield c
         for _ in range(600):
             yield self.gen_server(rng, 'thorough')
